@@ -279,7 +279,8 @@ fn witnesses() -> Vec<Prog> {
          vec![("Pt", 1, Decl("Pt", 0)), ("Pt", 2, Decl("Pt", 0)), ("a", 1, Decl("a", 0)), ("b", 1, Decl("b", 0)), ("Pt", 3, Decl("Pt", 0)), ("Pt", 4, Decl("Pt", 0)), ("c", 1, Decl("c", 0))],
          vec![("a + b", 0, "int"), ("1", 0, "int")]),
         ("qualified-variant-pattern", "type Cl = Rd | Gn(int)\nlet r = match Cl.Rd {\n  Cl.Rd -> 1\n  Cl.Gn(k) -> k\n}\n",
-         vec![("Cl", 1, Decl("Cl", 0)), ("Rd", 1, Decl("Rd", 0)), ("Rd", 2, Decl("Rd", 0)), ("k", 1, Decl("k", 0))],
+         // D106: the qualifier of an arm pattern answers the enum (the pattern's span covers `Cl.Rd`)
+         vec![("Cl", 1, Decl("Cl", 0)), ("Cl", 2, Decl("Cl", 0)), ("Cl", 3, Decl("Cl", 0)), ("Rd", 1, Decl("Rd", 0)), ("Rd", 2, Decl("Rd", 0)), ("k", 1, Decl("k", 0))],
          vec![("k", 1, "int")]),
         ("interface-method-and-impl", "interface It2 {\n  outputtype Item2\n  fn nxt(self) -> Item2\n}\nimplement It2 for int {\n  fn nxt(self) -> string { \"s\" }\n}\nlet q = It2.nxt(1)\n",
          vec![("Item2", 1, Decl("Item2", 0)), ("It2", 1, Decl("It2", 0))],
